@@ -84,6 +84,27 @@ theorem C02_no_return_before_pumps (p : Params) (s : State M E) (hr : Reachable 
   | false => rfl
   | true => have := (C02_cleanup p s hr hd).2.1; rw [h] at this; cases this
 
+/-- C12 enforcement on the whole call (instance of bounded termination): once the deadline (or any
+    cancellation) has fired, Forward returns within ≤ 19 of its own steps wherever in the call it strikes —
+    before stream creation, while waiting for the target, mid-stream, both sides idle. -/
+theorem C02_deadline_enforced (e0 : E) (p : Params) (s : State M E) (hr : Reachable p s) (w : Why)
+    (hc : s.ctx = some w) (hi : p.incAware = true) (ho : p.outAware = true) :
+    ∃ ls s', GB.LTS.run (step p) s ls = some s' ∧ isDone s' = true ∧ ls.length ≤ 19 := by
+  have ht : terminating s = true := by simp [terminating, hc]
+  exact C02_returns_within_rank e0 p hi ho 19 s hr ht (C02_rank_bound s)
+
+/-- C18(a) single owner: no stream operation ever has two goroutines of Forward inside it. Incoming.Recv and
+    outgoing.Send are called by main only in forwardUnaryRequest, when the request pump does not exist;
+    outgoing.CloseSend is called only when the request pump does not exist or has exited (so never
+    concurrently with outgoing.Send). Incoming.Send/SetHeader/SetTrailer and outgoing.Recv/Header/Trailer are
+    only ever called by the response pump (by construction of `stepCore`). Hence the
+    `sendActive/recvActive` guards of the stream adapters cannot fire from Forward. -/
+theorem C02_single_owner (p : Params) (s : State M E) (hr : Reachable p s) :
+    (s.main = .uRecvPending → s.i2o = .absent) ∧ (s.main = .uSendPending → s.i2o = .absent) ∧
+    (s.main = .uCloseSend → s.i2o = .absent) ∧ (s.main = .loopCloseSend → s.i2o = .exited) := by
+  have S := sinv_reach p s hr
+  refine ⟨fun h => S.pre_i (by simp [h]), fun h => S.pre_i (by simp [h]), fun h => S.pre_i (by simp [h]), S.lcs⟩
+
 /-! ### D1: a ctx-IGNORING incoming adapter deadlocks (negative witness, kernel-checked)
 
   Bidirectional call, the target ends it (EOF) while the client is silent: the request pump stays
